@@ -118,28 +118,40 @@ def save_model_with_external_data(
     # Show a progress bar if verbose is True and tqdm is installed
     use_tqdm = verbose and importlib.util.find_spec("tqdm") is not None
 
-    if use_tqdm:
-        import tqdm  # pylint: disable=import-outside-toplevel
+    # ir.save puts every initializer's const_value back, but serializing renames each tensor
+    # after its initializer; remember the names so that the model really is unchanged.
+    tensor_names = [
+        (value.const_value, value.const_value.name)
+        for graph in all_graphs
+        for value in graph.initializers.values()
+    ]
+    try:
+        if use_tqdm:
+            import tqdm  # pylint: disable=import-outside-toplevel
 
-        with tqdm.tqdm() as pbar:
-            total_set = False
+            with tqdm.tqdm() as pbar:
+                total_set = False
 
-            def callback(
-                tensor: ir.TensorProtocol, metadata: ir.external_data.CallbackInfo
-            ) -> None:
-                nonlocal total_set
-                if not total_set:
-                    pbar.total = metadata.total
-                    total_set = True
+                def callback(
+                    tensor: ir.TensorProtocol, metadata: ir.external_data.CallbackInfo
+                ) -> None:
+                    nonlocal total_set
+                    if not total_set:
+                        pbar.total = metadata.total
+                        total_set = True
 
-                pbar.update()
-                pbar.set_description(
-                    f"Saving {tensor.name} ({tensor.dtype.short_name()}, {tensor.shape}) at offset {metadata.offset}"
-                )
+                    pbar.update()
+                    pbar.set_description(
+                        f"Saving {tensor.name} ({tensor.dtype.short_name()}, {tensor.shape}) at offset {metadata.offset}"
+                    )
 
-            ir.save(model, model_path, external_data=data_path, callback=callback)
-    else:
-        ir.save(model, model_path, external_data=data_path)
+                ir.save(model, model_path, external_data=data_path, callback=callback)
+        else:
+            ir.save(model, model_path, external_data=data_path)
+    finally:
+        for tensor, name in tensor_names:
+            if tensor.name != name:
+                tensor.name = name
 
 
 def get_torchlib_ops() -> list[_OnnxFunctionMeta]:
